@@ -33,7 +33,14 @@ class PacketError(Exception):
         self.pkt, self.reason = pkt, reason
 
 
-EXC = {'HarnessAbort': HarnessAbort, 'ValueError': ValueError, 'KeyError': KeyError, 'RuntimeError': RuntimeError,
+class LinkDown(Exception):
+    """An application exception whose constructor formats its message: type(e)(*e.args) succeeds but yields other args."""
+
+    def __init__(self, port):
+        super().__init__('link down on port %s' % (port,))
+
+
+EXC = {'LinkDown': LinkDown, 'HarnessAbort': HarnessAbort, 'ValueError': ValueError, 'KeyError': KeyError, 'RuntimeError': RuntimeError,
        'ZeroDivisionError': ZeroDivisionError, 'IndexError': IndexError, 'OSError': OSError, 'PacketError': PacketError}
 
 GRID = [0, 0, 0.25, 0.5, 0.5, 1, 1, 1, 1.5, 2, 2, 3]
@@ -46,6 +53,8 @@ HANDLERS = ['none', 'cont', 'rewait', 'ret', 'raise', 'other']
 
 
 def mkexc(spec):
+    if spec[0] == 'LinkDown':
+        return LinkDown(spec[1][0] if spec[1] else 0)
     if spec[0] == 'PacketError':
         return PacketError(spec[1][0] if spec[1] else 0, 'lost')
     return EXC.get(spec[0], ValueError)(*spec[1])
